@@ -1,0 +1,43 @@
+# Copyright Contributors to the Pyro project.
+# SPDX-License-Identifier: Apache-2.0
+
+"""
+Verification hooks. Inactive unless the environment variable
+``FUNSOR_VERIF=1`` is set when funsor is first imported.
+
+With the guard on, ``hash()`` of funsors and ops no longer depends on memory
+addresses: each object gets, the first time it is hashed, the next number of a
+process-wide counter, mixed bijectively with ``FUNSOR_VERIF_HASHSEED``.
+Hashing stays identity based (distinct objects never collide), but the
+iteration order of sets of funsors/ops becomes a replayable function of the
+seed and of the order in which objects were first hashed.
+"""
+
+import os
+
+ENABLED = os.environ.get("FUNSOR_VERIF", "") == "1"
+
+_BITS = 60
+_MASK = (1 << _BITS) - 1
+
+
+def _splitmix(x):
+    x = (x + 0x9E3779B97F4A7C15) & 0xFFFFFFFFFFFFFFFF
+    x = ((x ^ (x >> 30)) * 0xBF58476D1CE4E5B9) & 0xFFFFFFFFFFFFFFFF
+    x = ((x ^ (x >> 27)) * 0x94D049BB133111EB) & 0xFFFFFFFFFFFFFFFF
+    return x ^ (x >> 31)
+
+
+_SEED = int(os.environ.get("FUNSOR_VERIF_HASHSEED", "0") or 0)
+_MUL = (_splitmix(_SEED) | 1) & _MASK  # odd => bijection mod 2**_BITS
+_ADD = _splitmix(_SEED ^ 0x5851F42D4C957F2D) & _MASK
+COUNTER = [0]
+
+
+def seeded_identity_hash(self):
+    d = self.__dict__
+    h = d.get("_verif_hash")
+    if h is None:
+        COUNTER[0] += 1
+        h = d["_verif_hash"] = (COUNTER[0] * _MUL + _ADD) & _MASK
+    return h
